@@ -268,7 +268,7 @@ func genC03Op(t *simrt.Tape, selected bool) c03op {
 		ns := func() []imap.NamespaceDescriptor {
 			var l []imap.NamespaceDescriptor
 			for i, n := 0, t.Choose(3); i < n; i++ {
-				l = append(l, imap.NamespaceDescriptor{Prefix: []string{"", "INBOX.", "Other Users/", "#shared/"}[t.Choose(4)], Delim: []rune{'/', '.'}[t.Choose(2)]})
+				l = append(l, imap.NamespaceDescriptor{Prefix: []string{"", "INBOX.", "Other Users/", "#shared/", "R&D/", "Dossiers partagés/", "共有.", "a&-b/", "q\"uote\\/"}[t.Choose(9)], Delim: []rune{'/', '.'}[t.Choose(2)]})
 			}
 			return l
 		}
